@@ -481,7 +481,7 @@ impl fmt::Display for Value<'_> {
       Value::TEXT(text) => write!(f, "\"{}\"", text),
       Value::INT(i) => write!(f, "{}", i),
       Value::UINT(ui) => write!(f, "{}", ui),
-      Value::FLOAT(float) => write!(f, "{}", float),
+      Value::FLOAT(float) => write!(f, "{:?}", float),
       Value::BYTE(bv) => write!(f, "{}", bv),
     }
   }
